@@ -19,10 +19,26 @@
     nil / empty []byte filter values are associated with rows of the other kind (the caller can even
     receive a row its own query does not select: corpus/C10/nil-vs-empty-bytes.json).  The
     repository's own MySQL-backed test TestBatchFilter pins that behaviour, so it is recorded as the known
-    finding c10-batch-matcher-go-type rather than repaired; the theorem below is the full statement with
-    the decidable hypothesis [filter_exactly_typed] that excludes exactly that class. *)
+    finding c10-batch-matcher-go-type rather than repaired (TestBatchFilter asserts sql.ErrNoRows for
+    int32 / int16 / int8 / int / uint values on the int64 column: any matcher that compares column values
+    instead of Go values breaks it).
+
+    What is proved instead is the exact domain of the statement.  [filter_transparent] (Sql/ModelExact.v) is
+    a decidable predicate on one filter -- per column, the set of stored values the caller's own WHERE atom
+    selects and the set the matcher accepts coincide, or both products over the filter's columns are empty --
+    and it is
+      - sufficient: callers inside it get exactly their own rows, whatever the other callers of the batch are
+        ([c10_transparent_filters_get_their_own_rows], [c10_any_grouping_of_callers]);
+      - necessary: a filter outside it is answered differently in the company of one empty filter on a
+        one-row table, which [witness_rows] computes ([c10_hypothesis_is_necessary]); so no weaker hypothesis
+        on a filter makes the transparency statement true ([c10_transparency_characterised]);
+      - strictly weaker than the earlier hypothesis [filter_exactly_typed], which it subsumes
+        ([c10_exactly_typed_filters_are_transparent], [ex_transparent_not_exactly_typed]).
+    The harness decides the predicate on its own (pkg/sqlh/transparent.go), the evaluator compares that with
+    the model on every caller, the oracle's known class is exactly its complement, and the necessity
+    witnesses are replayed on sqlgen. *)
 From Coq Require Import List String Bool ZArith.
-From Thunder Require Import Sql.Model Sql.BatchProofs.
+From Thunder Require Import Sql.Model Sql.ModelExact Sql.BatchProofs Sql.BatchExact.
 Import ListNotations.
 Open Scope string_scope.
 
@@ -48,6 +64,63 @@ Theorem c10_any_grouping_of_callers_except_known :
            (batched_by_arrival t fs arrival contents).
 Proof. exact batched_transparent_any_arrival. Qed.
 Print Assumptions c10_any_grouping_of_callers_except_known.
+
+(** The exact domain.  Every caller whose filter is transparent receives exactly the rows of its own query,
+    in the same order -- the other callers of the invocation may be anything (other Go types included). *)
+Theorem c10_transparent_filters_get_their_own_rows :
+  forall t fs f contents,
+    table_ok t = true -> columns_ok t = true -> In f fs ->
+    filter_transparent t f = true ->
+    forallb (row_representable t) contents = true ->
+    List.filter (matcher_matches t f) (select_rows (batch_wclause t fs) contents) = unbatched_result t f contents.
+Proof. exact batched_one_transparent. Qed.
+Print Assumptions c10_transparent_filters_get_their_own_rows.
+
+Theorem c10_batched_equals_unbatched :
+  forall t fs contents,
+    table_ok t = true -> columns_ok t = true ->
+    forallb (filter_transparent t) fs = true ->
+    forallb (row_representable t) contents = true ->
+    batched_results t fs contents = map (fun f => unbatched_result t f contents) fs.
+Proof. exact batched_transparent_exact. Qed.
+Print Assumptions c10_batched_equals_unbatched.
+
+Theorem c10_any_grouping_of_callers :
+  forall t fs arrival contents,
+    table_ok t = true -> columns_ok t = true ->
+    forallb (filter_transparent t) fs = true ->
+    forallb (row_representable t) contents = true ->
+    Forall (fun ir => snd ir = unbatched_result t (nth_filter fs (fst ir)) contents)
+           (batched_by_arrival t fs arrival contents).
+Proof. exact batched_transparent_exact_any_arrival. Qed.
+Print Assumptions c10_any_grouping_of_callers.
+
+(** The earlier hypothesis is a special case. *)
+Theorem c10_exactly_typed_filters_are_transparent :
+  forall t f, columns_ok t = true -> filter_exactly_typed t f = true -> filter_transparent t f = true.
+Proof. exact exactly_typed_transparent. Qed.
+Print Assumptions c10_exactly_typed_filters_are_transparent.
+
+(** The hypothesis cannot be weakened: a filter outside it (whose values MySQL compares with the columns as
+    the model does: [filter_comparable]) gets other rows with batching than alone -- next to one caller with
+    an empty filter, on the one-row table [witness_rows] computes. *)
+Theorem c10_hypothesis_is_necessary :
+  forall t f,
+    columns_ok t = true -> cols_distinct t = true ->
+    filter_comparable t f = true -> filter_transparent t f = false ->
+    exists r, In r (witness_rows t f) /\ row_representable t r = true
+              /\ hd [] (batched_results t [f; []] [r]) <> unbatched_result t f [r].
+Proof. exact transparency_necessary. Qed.
+Print Assumptions c10_hypothesis_is_necessary.
+
+Theorem c10_transparency_characterised :
+  forall t f,
+    table_ok t = true -> columns_ok t = true -> cols_distinct t = true -> filter_comparable t f = true ->
+    (filter_transparent t f = true <->
+     forall others contents, forallb (row_representable t) contents = true ->
+       hd [] (batched_results t (f :: others) contents) = unbatched_result t f contents).
+Proof. exact transparency_exact. Qed.
+Print Assumptions c10_transparency_characterised.
 
 (** The full statement is false: witness F18 (id = int(10) on an int64 column gets no rows when batched). *)
 Theorem c10_full_statement_refuted :
@@ -107,6 +180,38 @@ Example ex_hypotheses_hold :
   /\ forallb (filter_exactly_typed w_users)
        [[("id", GInt KI64 "" 10%Z)]; [("nick", GNil)]; [("name", GStr "" "al"); ("nick", GPtr 1 (GStr "" "a"))]; []] = true
   /\ forallb (row_representable w_users) w_contents = true.
+Proof. repeat split; reflexivity. Qed.
+
+(** The exact hypothesis: F18's filter is outside it and [witness_rows] separates it; a filter that is not
+    exactly typed can be inside (a pointer to "" on the implicitnull column selects nothing and int(3) is
+    never matched: no rows either way). *)
+Definition ex_items : table :=
+  mk_table "items" false
+    [mk_col "id" true false (TyInt KI64 ""); mk_col "note" false true (TyStr ""); mk_col "data" false false TyBytes].
+
+Example ex_f18_outside :
+  filter_comparable ex_items [("id", GInt KI "" 10%Z)] = true
+  /\ filter_transparent ex_items [("id", GInt KI "" 10%Z)] = false
+  /\ witness_rows ex_items [("id", GInt KI "" 10%Z)]
+     = [[("id", DInt 0%Z); ("note", DNull); ("data", DNull)]; [("id", DInt 10%Z); ("note", DNull); ("data", DNull)]]
+  /\ batched_results ex_items [[("id", GInt KI "" 10%Z)]; []] [[("id", DInt 10%Z); ("note", DNull); ("data", DNull)]]
+     = [[]; [[("id", DInt 10%Z); ("note", DNull); ("data", DNull)]]]
+  /\ unbatched_result ex_items [("id", GInt KI "" 10%Z)] [[("id", DInt 10%Z); ("note", DNull); ("data", DNull)]]
+     = [[("id", DInt 10%Z); ("note", DNull); ("data", DNull)]].
+Proof. repeat split; vm_compute; reflexivity. Qed.
+
+(** An empty []byte filter is handed the NULL row fetched for the other caller, which its own query does not select. *)
+Example ex_empty_bytes_gains_a_row :
+  filter_transparent ex_items [("data", GBytes "")] = false
+  /\ hd [] (batched_results ex_items [[("data", GBytes "")]; []] [[("id", DInt 0%Z); ("note", DNull); ("data", DNull)]])
+     = [[("id", DInt 0%Z); ("note", DNull); ("data", DNull)]]
+  /\ unbatched_result ex_items [("data", GBytes "")] [[("id", DInt 0%Z); ("note", DNull); ("data", DNull)]] = [].
+Proof. repeat split; vm_compute; reflexivity. Qed.
+
+Example ex_transparent_not_exactly_typed :
+  filter_exactly_typed ex_items [("id", GInt KI "" 3%Z); ("note", GPtr 1 (GStr "" ""))] = false
+  /\ filter_transparent ex_items [("id", GInt KI "" 3%Z); ("note", GPtr 1 (GStr "" ""))] = true
+  /\ table_ok ex_items = true /\ columns_ok ex_items = true /\ cols_distinct ex_items = true.
 Proof. repeat split; reflexivity. Qed.
 
 Example ex_batched_rows :
